@@ -4,6 +4,6 @@
 set -e
 B=$(mktemp -d /tmp/psv-baseline.XXXXXX)
 trap 'rm -rf "$B"' EXIT
-cmake -G Ninja -S /repo -B "$B" >/dev/null
+cmake -G Ninja -S /repo -B "$B" -DCMAKE_BUILD_TYPE=RelWithDebInfo -DCMAKE_CXX_FLAGS=-Wno-error -DCMAKE_C_FLAGS=-Wno-error >/dev/null
 cmake --build "$B" -j16 >/dev/null
 ctest --test-dir "$B" -j8 --timeout 900 --output-junit "$B/junit.xml"
